@@ -606,7 +606,9 @@ def run_check(mod: Any, tier: str, base_seed: int, runs: int | None = None, proc
         print(f"HARNESS-ERROR property={prop} ({len(harness_errors)} problems)")
         for e in harness_errors[:5]:
             print("  " + e.replace("\n", "\n  ")[:2000])
-        return 2
+        # a confirmed, replaying violation stands on its own: changed code that breaks the property often ALSO wedges some
+        # runs (a thread really blocked, a shrink that times out); those are reported above, the verdict is the violation
+        return 1 if n_viol else 2
     if n == 0:
         print(f"HARNESS-ERROR property={prop} no runs completed")
         return 2
